@@ -222,6 +222,42 @@ PROPS = {
         kinds=[dict(kind="hist", quick=8000, thorough=250000, args=["diff"], corr=["pool", "steps"], oracle=[], nontrivial=lambda req, A, B: "p:" in req.split("\t")[5]),
                dict(kind="histf", quick=10000, thorough=300000, args=["diff"], no_model=True, corr=[], oracle_const=[("r", "ok")], nontrivial=lambda req, A, B: "p:" in req.split("\t")[3])],
     ),
+    "C18": dict(
+        level="proof",
+        modules=["Exmex.Props.C18", "Exmex.Props.C16"],
+        theorems=["Exmex.C18.cmp_untouched", "Exmex.C18.piecewise_if", "Exmex.C18.piecewise_else", "Exmex.C18.no_rule_is_error", "Exmex.C16.if_else"],
+        level_text=("kernel-checked: the rule table treats comparisons as carried conditions and `if`/`else` per operand (C18 module), and `a if c else b` selects by the "
+                    "truth of c (C16.if_else); the derivative engine of the model is tied to partial.rs by exact symbolic correspondence on piecewise expressions; the "
+                    "implementation is judged numerically on the real value type against branch-wise textbook differentiation at points off the branch boundaries"),
+        rule="nested piecewise expressions `f if cond else g` with arithmetic around them, ints and floats mixed, comparison conditions that depend on a variable; parse_val(..).partial_iter(idxs).eval(point) at 3 tame points (>= 1e-3 away from every comparison boundary) against branch-wise textbook derivatives, order 1 and 2; comparisons at top level must stay untouched; plus the symbolic correspondence of the rule table (hist, piecewise profile); non-trivial = contains a piecewise or comparison node; distinct by request hash",
+        kinds=[dict(kind="valdiff", quick=12000, thorough=400000, no_model=True, corr=[], oracle_const=[("r", "ok")], nontrivial=lambda req, A, B: b" if " in bytes.fromhex(req.split("\t")[1]) or A.get("judged", "0") != "0"),
+               dict(kind="hist", quick=6000, thorough=150000, args=["val"], corr=["pool", "steps"], oracle=[], nontrivial=lambda req, A, B: "p:" in req.split("\t")[5])],
+    ),
+    "C19": dict(
+        level="translation_validation",
+        modules=["Exmex.Props.C19", "Exmex.Props.Tie"],
+        theorems=["Exmex.C19.float_table_matches_doc", "Exmex.C19.float_table_names_nodup"],
+        level_text=("the operator table of FloatOpsFactory::make() is re-extracted from the source text on every run (name, role, closure body, priority, flag) and proved "
+                    "equal to the documented table by the Lean kernel (decide); that a closure which is the primitive call computes the primitive is Rust semantics, cross-checked "
+                    "bit for bit at run time for f32 and f64 on an exhaustive special-value catalogue and random values, directly and through parsed expressions"),
+        technique="Lean 4 table theorem over source-extracted data + exhaustive bitwise cross-check",
+        rule="every operator and constant of the default table x {f32, f64} x special values {0, -0, +-1, subnormal, min normal, huge, +-inf, NaN, ...} (22 values; binary: all ordered pairs) exhaustively, random finite values across magnitudes; applied directly (Operator::bin/unary/constant) and through FlatEx::parse in infix, call and juxtaposition form and eval_str; bitwise comparison with an independent name->std primitive table; programs = operator applications; distinct by request hash",
+        kinds=[dict(kind="fopx", quick=8988, thorough=8988, no_model=True, corr=[], oracle_const=[("r", "ok")], nontrivial=always),
+               dict(kind="fop", quick=20000, thorough=1000000, no_model=True, corr=[], oracle_const=[("r", "ok")], nontrivial=always)],
+    ),
+    "C20": dict(
+        level="other",
+        modules=["Exmex.Props.C20"],
+        theorems=["Exmex.C20.schedule_independent", "Exmex.C20.eval_does_not_modify"],
+        level_text=("partial: in the Lean model parse and eval are functions of immutable values, so every interleaving returns the sequential results (schedule_independent, "
+                    "kernel-checked but true by purity); that the implementation is such a function is decided by rustc (Send + Sync static assertions in the harness, which "
+                    "fail to compile otherwise), by a source scan for interior mutability, and by a concurrent history check (2/8/16 threads, shared Arc expressions, first-use "
+                    "regex initialisation raced in a fresh process per round); no exploration of interleavings"),
+        technique="purity theorem in Lean + rustc Send/Sync assertions + concurrent history check",
+        explanation="C20 is the weakest fit for a Lean proof: the model is pure by construction. The check = (1) kernel-checked schedule-independence of the model, (2) compile-time Send+Sync assertions for FlatEx<f64>, FlatEx<f32>, DeepEx<'static,f64>, FlatExVal<i32,f64>, FlatEx<Sym>; the harness does not build if they fail, (3) source scan of /repo/src for Cell|RefCell|Mutex|Atomic|UnsafeCell|static mut|thread_local (reported in evidence; only lazy_static regexes expected), (4) rounds of concurrent parse+eval histories compared with a sequential run of the same operations in the same process.",
+        rule="rounds with 2, 8 and 16 threads released by a barrier in a fresh process (first parse of the process is concurrent), 40 mixed operations per thread (flat/deep/value parse + eval, eval of shared Arc<FlatEx>/Arc<DeepEx>), compared with the sequential run; shared expressions compared before/after; non-trivial = every round; distinct by request hash",
+        kinds=[dict(kind="threads", quick=150, thorough=4000, no_model=True, corr=[], oracle_const=[("r", "ok")], nontrivial=always)],
+    ),
     "C06": dict(
         level="proof",
         modules=["Exmex.Props.C07", "Exmex.Props.C14", "Exmex.Props.C02", "Exmex.Props.C02Deep"],
